@@ -254,9 +254,19 @@ def check_c18(res, tier, rng):
                 cls = 'inf' if int(e) >= 2 * FMT[fmt]['emax'] - 1 else 'subnormal' if int(e) == 0 else 'promoted' if (int(e) == 1 and int(m) == (1 << ms)) else 'normal'
                 kinds[cls] += 1
             if not ok:
-                nviol += 1
-                if nviol <= 20:
-                    res.violation('rounding primitive: packed result differs from the nearest float', {'case': l, 'cfg': key[0], 'build': key[1], 'observed': out, 'expected_bits': '%016x' % want[k]})
+                key_known = None
+                t = l.split()
+                if t[4] == 'down' and out.startswith('E '):
+                    F = FMT[fmt]
+                    inf_bits = (2 * F['emax'] - 1) << ms
+                    if want[k] == inf_bits - 1 and (int(out.split()[1]) | (int(out.split()[2]) << ms)) == inf_bits:
+                        # value >= 2^emax: the truncating variant returns the infinity fields (KNOWN_FINDINGS F3)
+                        key_known = 'F3-round-down-overflow-gives-infinity'
+                if key_known is None:
+                    nviol += 1
+                if key_known is not None or nviol <= 20:
+                    res.violation('rounding primitive (%s): packed result differs from the %s' % (t[4], 'nearest float' if t[4] == 'ne' else 'largest float not above the value'),
+                                  {'case': l, 'cfg': key[0], 'build': key[1], 'observed': out, 'expected_bits': '%016x' % want[k]}, key=key_known)
     for k, l in enumerate(mlines):
         for key in plan:
             if impl[key][len(lines) + k] != mwant[k]:
@@ -271,7 +281,7 @@ def check_c18(res, tier, rng):
 
 
 def rd_ratio(fmt, num, den):
-    """largest float not above num/den (bits); infinity if num/den >= 2^emax"""
+    """largest float not above num/den (bits)"""
     F = FMT[fmt]
     p, emax = F['p'], F['emax']
     emin = 3 - emax - p
@@ -290,7 +300,8 @@ def rd_ratio(fmt, num, den):
     if q >= (1 << (p - 1)):
         biased = e - emin + 1
         if biased >= 2 * emax - 1:
-            return (2 * emax - 1) << (p - 1)
+            # truncation never overflows: the largest float not above the value is the largest finite one
+            return ((2 * emax - 1) << (p - 1)) - 1
         return (biased << (p - 1)) | (q - (1 << (p - 1)))
     return q
 
